@@ -23,11 +23,11 @@ EXPLANATION = (
 )
 LEVEL_TEXT = EXPLANATION + " Exhaustive over the catalogue (finite); decides the generated program per type family."
 LEVEL_NOTE = (
-    "Trusted base: dispatch.HELPER_MODEL (stdlib-only model of the helper type predicates) and oracle.ref_unpack "
+    "Trusted base: dispatch.HELPER_MODEL (stdlib-only model of the helper type predicates; checked against the helpers by R02.8 on the probe set) and oracle.ref_unpack "
     "(transcribed from the README). Not decided: what the named constructors accept on foreign input, REF_DECODE equality "
     "for concrete values, dataclass/union members (C05/C07/C11)."
 )
-ASSUMPTIONS = ["helper type predicates behave as the stdlib-only model in dispatch.HELPER_MODEL",
+ASSUMPTIONS = ["helper type predicates behave as the stdlib-only model in dispatch.HELPER_MODEL on types outside the probe set of R02.8 (on the probe set the agreement is checked)",
                "class hierarchy of the analysing interpreter's standard library"]
 
 
@@ -134,3 +134,20 @@ def run(repo, rep, tier):  # noqa: F811 -- round-6 remedies (core/round6.py)
 _ADDR6C = " R03.8: a whole-entry pass_through in a format dialect table is allowed only for types the format's decoder returns natively (bytes for msgpack; date/time/datetime for TOML). Borrowed: R05.15."
 EXPLANATION += _ADDR6C
 LEVEL_TEXT += _ADDR6C
+
+
+_run_before_r7tp = run
+
+
+def run(repo, rep, tier):  # noqa: F811 -- round 7: type-level helper contracts borrowed from C02
+    _run_before_r7tp(repo, rep, tier)
+    if getattr(rep, "borrowed", False):
+        return
+    from ..core import typepreds as _tp7
+    _tp7.model_agreement(repo, rep, "R02.8", tier)
+    _tp7.reference_cases(repo, rep, "R02.9")
+
+
+_ADDR7TP = " Borrowed: R02.8 / R02.9 (the type predicates and type-level helpers, interpreted from their own source over the catalogue types and a reference table, answer as the dispatch model and the documentation say)."
+EXPLANATION += _ADDR7TP
+LEVEL_TEXT += _ADDR7TP
